@@ -92,7 +92,7 @@ func c16Str(rng *rand.Rand) string {
 
 // numeric look-alikes: the same value in several Go types, the text of a number as a string, -0, values around 2^53
 func c16Num(rng *rand.Rand) string {
-	base := []int64{0, 1, 1, 2, -1, 7, 10, 9007199254740992, 9007199254740993}[rng.Intn(9)]
+	base := []int64{0, 1, 1, 2, -1, 7, 10, 9007199254740992, 9007199254740993, 16777216, 16777217, 20000000, 20000001}[rng.Intn(13)] // incl. neighbours that collide as float32
 	switch rng.Intn(9) {
 	case 0:
 		return "i:" + strconv.FormatInt(base, 10)
